@@ -530,7 +530,11 @@ def sec_sqrt_iswap(ctx, rng, case):
         if expect == "either":
             ctx.event("sqrt-iswap-grey-band")
         v, d, n = P.post_sqrt_iswap(q0, q1, u, ops, required, inv, atol, clean, coords)
-        if d > P.recon_tol(atol) and atol < 1e-9 and W.PI4 - coords[0] < 1.2e-9:
+        on_face = W.PI4 - coords[0] < 1.2e-9
+        # the 3-gate branch splits off (-pi/8, pi/8, 0) when y <= pi/8: its 2-gate sub-problem then has x2 = x + pi/8, which
+        # lies on the same x = pi/4 face when x is within 1e-9 of pi/8
+        sub_on_face = abs(coords[0] - W.PI4 / 2) < 1.2e-9 and coords[1] <= W.PI4 / 2 + 1e-12
+        if d > P.recon_tol(atol) and atol < 1e-9 and (on_face or sub_on_face):
             # explained-by: kak_decomposition canonicalises with a fixed 1e-9 window at x = pi/4 while the 3-gate branch
             # canonicalises its sub-problems with the caller's atol; for atol < 1e-9 the two disagree about the sign of z on
             # that face and the single-qubit corrections belong to different frames.  The same call with atol=1e-8 is correct.
